@@ -215,6 +215,21 @@ theorem shape_groupsigValueUses : Shape.groupsigValueUses = [
   "VerifySig: arg.value.IsNil()"
 ] := rfl
 
+/-- groupsig/*.go: everything used from other go-rangers packages (no chain configuration, no fork flags, no block height) is what `Model/Bls14Verify.lean` / `Bls14G1.lean` transcribes. -/
+theorem shape_groupsigExternalUses : Shape.groupsigExternalUses = [
+  "src/common.Address",
+  "src/common.Bytes2Hex",
+  "src/common.BytesToAddress",
+  "src/common.Hex2Bytes",
+  "src/common.ShortHex12",
+  "src/common.ToHex",
+  "src/consensus/base.NewRand",
+  "src/consensus/base.Rand"
+] := rfl
+
+/-- bn256/*.go: everything used from other go-rangers packages (nothing) is what `Model/Bls14Verify.lean` / `Bls14G1.lean` transcribes. -/
+theorem shape_bn256ExternalUses : Shape.bn256ExternalUses = [] := rfl
+
 /-- The constants are mutually consistent and are the ones the byte-level proofs rely on:
     `p2` spells `P`, `P ≡ 3 (mod 4)` (square roots by one exponentiation), `P` fits in
     `numBytes` bytes but `2P` does not (so `x + p` is the only alias), `Order < P`. -/
